@@ -13,7 +13,7 @@ def stall_part(res, cfg, binary, rng):
     for prof in ("debug", "release"):
         b = c.build_harness(prof)[0]
         outs = []
-        MODES = (1, 2, 3, 4, "5 1", "5 2", "5 3")
+        MODES = (1, 2, 3, 4, "5 1", "5 2", "5 3", 6)
         for mode in MODES:
             try:
                 outs.append(c.run_lines(b, ["stall %s" % mode], timeout=90)[0])
@@ -29,7 +29,8 @@ def stall_part(res, cfg, binary, rng):
                             "why": ["snapshot() did not return: the daemon %s and the client call never ended" %
                                     {1: "stalled mid-update right after the client's first generation load", 2: "kept publishing",
                                      3: "died mid-update after two publications", 4: "was restarted over a wiped segment and never published (generation 0 from the call's first record load on)",
-                                     5: "completed %s update(s) while the call was copying, then died in the middle of the next one" % str(mode)[2:]}[int(str(mode)[0])]]})
+                                     5: "completed %s update(s) while the call was copying, then died in the middle of the next one" % str(mode)[2:],
+                                     6: "stalled mid-update right after the client's first generation load, a few hundred clock readings before the monotonic clock passes a full second"}[int(str(mode)[0])]]})
                 continue
             n, ret, kinds, ms = out.split()[:4]
             n = int(n)
